@@ -118,6 +118,7 @@ pub fn run_world_t(plan: &Rc<Plan>) -> Result<History, String> {
         hook_restored,
         stats: core.stats.borrow().clone(),
         probes: core.probes.borrow().iter().map(|(k, v)| ((*k).to_owned(), *v)).collect(),
+        dispatch_times: core.dispatch_times.borrow().clone(),
         sched_digest: core.sched_digest.get(),
         sched_trace: core.sched_trace.borrow().clone(),
         max_in_callbacks: ctx.max_in_callbacks.get(),
@@ -230,9 +231,12 @@ pub fn c20(a: &Analysis<'_>, out: &mut Vec<Violation>) {
                         ),
                         CbKind::Step => {
                             let is = |i: &usize| evs[*i].step.as_ref().is_some_and(|s| crate::plan::site_step(&s.text) == c.site);
+                            // a scenario may hold the same step more than once: the n-th callback of the
+                            // site on this World belongs to the n-th Started / result of that step
+                            let occ = a.h.cb.iter().filter(|d| d.kind == CbKind::Step && d.site == c.site && d.world == c.world && d.enter < c.enter).count();
                             (
-                                at.seq.iter().copied().find(|i| is(i) && matches!(evs[*i].k, K::StepStarted { .. })),
-                                at.seq.iter().copied().find(|i| is(i) && matches!(evs[*i].k, K::StepPassed { .. } | K::StepFailed { .. } | K::StepSkipped { .. })),
+                                at.seq.iter().copied().filter(|i| is(i) && matches!(evs[*i].k, K::StepStarted { .. })).nth(occ),
+                                at.seq.iter().copied().filter(|i| is(i) && matches!(evs[*i].k, K::StepPassed { .. } | K::StepFailed { .. } | K::StepSkipped { .. })).nth(occ),
                             )
                         }
                         // World::new runs inside the before hook if one is set, else inside the first
